@@ -625,6 +625,14 @@ def drive(ctx, focus, n_runs, want, reads_per_run=(5, 9), config_hook=None, extr
     ctx.extra["runs"] = len(events)
     ctx.extra["runs_rejected_by_cli"] = len(failed)
     ctx.extra["reads"] = sum(len(e["reads"]) for e in events)
+    ctx.extra["reads_with_recorded_stage_chain"] = sum(1 for e in events for rd in e["reads"] if rd["obs"].get("chain"))
+    ctx.extra["reads_whose_chain_deviates_locally"] = sum(len(e.get("_blame") or {}) for e in events)
+    bl = {}
+    for e in events:
+        for k, labs in (e.get("_blame") or {}).items():
+            for lab in labs:
+                bl[lab] = bl.get(lab, 0) + 1
+    ctx.extra["stage_blame_counts"] = bl
     ctx.extra["runs_with_rest_and_wildcard_file"] = sum(1 for e in events if "aux" in e["want"])
     ctx.extra["paired_runs"] = sum(1 for e in events if e["cfg"]["paired"])
     ctx.extra["reads_written_to_a_file"] = sum(1 for e in events for rd in e["reads"] if rd["obs"]["dest"] != "none")
